@@ -1070,10 +1070,13 @@ func (p *Parser) parseTVFCallExpr(ids []*ast.Ident) *ast.TVFCallExpr {
 	p.expect("(")
 
 	var args []ast.TVFArg
+	// noMore is true when the last positional argument is not followed by a comma, then only ")" can follow.
+	noMore := false
 	if p.Token.Kind != ")" {
 		for !p.lookaheadNamedArg() {
 			args = append(args, p.parseTVFArg())
 			if p.Token.Kind != "," {
+				noMore = true
 				break
 			}
 			p.nextToken()
@@ -1081,7 +1084,7 @@ func (p *Parser) parseTVFCallExpr(ids []*ast.Ident) *ast.TVFCallExpr {
 	}
 
 	var namedArgs []*ast.NamedArg
-	if p.lookaheadNamedArg() {
+	if !noMore && p.lookaheadNamedArg() {
 		namedArgs = parseCommaSeparatedList(p, p.parseNamedArg)
 	}
 
@@ -1860,10 +1863,13 @@ func (p *Parser) parseCallLike() ast.Expr {
 	}
 
 	var args []ast.Arg
+	// noMore is true when the last positional argument is not followed by a comma, then no named argument can follow.
+	noMore := false
 	if p.Token.Kind != ")" {
 		for p.Token.Kind != token.TokenEOF && !p.lookaheadNamedArg() {
 			args = append(args, p.parseArg())
 			if p.Token.Kind != "," {
+				noMore = true
 				break
 			}
 			p.nextToken()
@@ -1873,7 +1879,7 @@ func (p *Parser) parseCallLike() ast.Expr {
 	// https://github.com/google/zetasql/blob/master/docs/functions-reference.md#named-arguments
 	// You cannot specify positional arguments after named arguments.
 	var namedArgs []*ast.NamedArg
-	for {
+	for !noMore {
 		namedArg := p.tryParseNamedArg()
 		if namedArg == nil {
 			break
